@@ -24,6 +24,19 @@ pub const DEF: PropDef = PropDef {
     needs_refnoise: true,
 };
 
+/// A call that the length model says must succeed returned an error. `Err(Input)` is the
+/// framing error (the implementation measured the message or the buffer differently from the
+/// specification): a violation of this property. Any other error kind (missing PSK, DH,
+/// decryption, state) means that an honest operation failed for a reason that has nothing to do
+/// with lengths - other properties' business (C02/C07/C12/C18): reported as a set-up failure.
+fn must_succeed<T: std::fmt::Debug>(res: &Result<T, Error>, ctx: &str, what: &str) -> CaseResult {
+    match res {
+        Ok(_) => Ok(()),
+        Err(Error::Input) => Err(Fail::new(format!("{ctx}: {what}, got Err(Input)"))),
+        Err(x) => Err(Fail::setup(format!("{ctx}: {what}, but the call failed for a reason unrelated to framing: {x:?}"))),
+    }
+}
+
 #[derive(Clone, Debug, Serialize, Deserialize)]
 pub enum Kind {
     HsWrite { plen: usize, buf: usize },
@@ -63,11 +76,23 @@ fn oracle(c: &Case, acc: &mut Acc) -> CaseResult {
                 ensure!(n <= *buf, "{ctx}: returned more than the buffer");
             }
             if predicted > *buf || predicted > 65535 {
+                if res.is_err() && res != Err(Error::Input) {
+                    // control: the same call with a small payload and an ample buffer on a fresh,
+                    // identically driven session. If that fails with the same error, the call
+                    // fails for a reason unrelated to framing (not this property's business)
+                    let mut p2 = drive_to(spec, c.idx)?;
+                    let w2 = if i_sends { &mut p2.i } else { &mut p2.r };
+                    let mut big = vec![0u8; 65535];
+                    let ctl = w2.write_message(&payload[..payload.len().min(3)], &mut big);
+                    if ctl.is_err() && ctl.as_ref().err() == res.as_ref().err() {
+                        return Err(Fail::setup(format!("{ctx}: the write fails with {res:?} even with an ample buffer (unrelated to framing)")));
+                    }
+                }
                 ensure!(res == Err(Error::Input), "{ctx}: the message does not fit, expected Err(Input), got {res:?}");
                 acc.label("write:must_fail");
                 acc.nontrivial(&(name, c.idx, *plen, *buf, 0));
             } else if *buf >= predicted + 16 {
-                ensure!(res.is_ok(), "{ctx}: ample buffer, expected Ok({predicted}), got {res:?}");
+                must_succeed(&res, &ctx, &format!("ample buffer, expected Ok({predicted})"))?;
                 acc.label("write:must_succeed");
                 acc.nontrivial(&(name, c.idx, *plen, *buf, 1));
             } else {
@@ -86,7 +111,7 @@ fn oracle(c: &Case, acc: &mut Acc) -> CaseResult {
                 ensure!(out[..n] == payload[..], "{ctx}: payload bytes differ");
             }
             if *pbuf >= *plen {
-                ensure!(res.is_ok(), "{ctx}: genuine message and adequate buffer, got {res:?}");
+                must_succeed(&res, &ctx, "genuine message and adequate buffer")?;
                 acc.label("read:must_succeed");
                 acc.nontrivial(&(name, c.idx, *plen, *pbuf, 2));
             } else {
@@ -245,7 +270,7 @@ fn t_oracle(c: &TCase, acc: &mut Acc) -> CaseResult {
             ensure!(res == Err(Error::Input), "{ctx}: message does not fit, expected Err(Input), got {res:?}");
             acc.label("twrite:must_fail");
         } else {
-            ensure!(res.is_ok(), "{ctx}: fits, expected Ok({predicted}), got {res:?}");
+            must_succeed(&res, &ctx, &format!("fits, expected Ok({predicted})"))?;
             acc.label("twrite:must_succeed");
         }
         acc.nontrivial(&ctx);
@@ -271,7 +296,7 @@ fn t_oracle(c: &TCase, acc: &mut Acc) -> CaseResult {
             acc.label("tread:len_must_fail");
             acc.nontrivial(&ctx);
         } else if c.genuine && c.buf + 16 >= msg.len() {
-            ensure!(res.is_ok(), "{ctx}: genuine message, adequate buffer: {res:?}");
+            must_succeed(&res, &ctx, "genuine message, adequate buffer")?;
             ensure!(out[..c.len - 16] == data[..c.len - 16], "{ctx}: payload differs");
             acc.label("tread:must_succeed");
             acc.nontrivial(&ctx);
